@@ -1,4 +1,4 @@
-\* C14 thorough, part 2: all block trees with <= 4 statements, nesting <= 4, over a reduced shape set that keeps
+\* C14 thorough, part 2: all block trees with <= 4 statements, nesting <= 4, over a reduced set of 10 shapes that keeps
 \* every class the 2-D rules distinguish (then/else/add bracket a single line, == does not, where follows a block,
 \* the three-hole if chain); 8 styles per tree.
 SPECIFICATION Spec
@@ -10,8 +10,8 @@ CONSTANTS
   Seed = 0
   ScanChars = TRUE
   Export = TRUE
-  Use0 = {"L3", "L5"}
-  Use1 = {"D1", "I1", "A1"}
+  Use0 = {"L3", "L5", "L6"}
+  Use1 = {"D1", "I1", "A1", "Q1"}
   Use2 = {"I2", "Q2"}
   Use3 = {"I3"}
 INVARIANTS LeadOK StageOK
